@@ -1534,6 +1534,9 @@ class AttrParser(BaseParser):
                 return FloatAttr(float(value), type)
             except OverflowError:
                 self.raise_error("integer literal too large to convert to a float")
+            except ValueError as e:
+                # The type cannot represent the value (e.g. a negative f8E8M0FNU)
+                self.raise_error(str(e))
 
         if isa(type, IntegerType | IndexType):
             if isinstance(value, float):
